@@ -212,6 +212,17 @@ class Effects:
                 if k in self.funcs:
                     out.append(self.funcs[k])
             return out
+        if isinstance(f, ast.Subscript) and isinstance(f.value, ast.Name):
+            # dispatch through a module-level registry dict: every registered function is a callee
+            res = self.repo.resolve_expr(mod, f.value)
+            if res and res[2] == 'assign' and isinstance(res[3], ast.Dict):
+                for v in res[3].values:
+                    r2 = self.repo.resolve_expr(res[0], v)
+                    if r2 and r2[2] == 'function':
+                        k = f'{r2[0].name}:{r2[1]}'
+                        if k in self.funcs:
+                            out.append(self.funcs[k])
+            return out
         if isinstance(f, ast.Attribute):
             # method call: resolve by name over the repository's classes
             for fi in self.by_name.get(f.attr, []):
